@@ -52,8 +52,8 @@ Definition bss_encode (k : N) (values : list N) (count cap : N) : res (list N) :
 (** carquet_byte_stream_split_decode (data, data_size, type_length, values, count) *)
 Definition bss_decode (k : N) (data : list N) (count : N) : res (list N) :=
   if k =? 0 then Err ERR_INVALID_ARGUMENT else
-  let required := size_t (count * k) in
-  if len data <? required then Err ERR_DECODE
+  (* count < 0 || (uint64_t)count > data_size / type_length *)
+  if len data / k <? count then Err ERR_DECODE
   else bss_scatter (N.to_nat k) (N.to_nat count) data.
 
 Definition bss_encode_float := bss_encode 4.
